@@ -11,7 +11,8 @@
    tbl                                           -> table line about the regenerated builtin table (T5)
 -/
 import Argot.Model.Intra
-open Argot.Intra
+import Argot.Gen.T5Builtins
+open Argot.Intra Argot.BuiltinTable Argot.Gen
 
 def parseNats (s : String) : Option (List Nat) :=
   if s == "-" then some [] else (s.splitOn ",").mapM String.toNat?
@@ -26,6 +27,7 @@ def parseKind (s : String) : Option IK :=
   | "extract" => some .extract | "typeAssert" => some .typeAssert | "slice" => some .slice
   | "call" => some .call | "ret" => some .ret | "ifc" => some .ifc
   | "makeClosure" => some .makeClosure | "other" => some .other
+  | "range" => some .range | "next" => some .next | "select" => some .select
   | _ => if s.startsWith "builtin:" then some (.builtin (s.drop 8).toString) else none
 
 def parseFacts (s : String) : Option (List Fact) :=
@@ -131,6 +133,10 @@ partial def loop (h : IO.FS.Stream) (acc : PAcc) : IO Unit := do
     | none => IO.println (answer acc)
     (← IO.getStdout).flush
     loop h {}
+  | ["tbl"] =>
+    let b (x : Bool) := if x then "1" else "0"
+    IO.println s!"tbl byType={b T5.identifiedByType} byName={b T5.identifiedByName} minmaxAll={b (coversAllArities T5.rows "min" && coversAllArities T5.rows "max")} minmaxPinnedDefect={b (pinnedMinMaxDefect T5.rows)} fixedCovers={b (fixedCases.all fun c => covers T5.handled T5.rows c.1 c.2)}"
+    loop h acc
   | [] => loop h acc
   | _ => loop h (badl acc)
 
